@@ -48,7 +48,7 @@ PROP = {
         "no alloc() inside Cabinet::foreach (only removal is documented as allowed during traversal)",
         "id wrap-around of the cabinet (2^64 allocations) is out of reach and not exercised",
         "pooled probe types need no more than malloc alignment; a constructor that throws has released what it allocated itself (pool_tree)",
-        "a close function is never invoked re-entrantly on the handle being closed; calls of the close function with a negative argument are ignored",
+        "close() of a case-owned descriptor number is observed (and, when armed, made to report EINTR after closing) through a close() defined in the harness executable; other numbers pass through untouched", "a close function is never invoked re-entrantly on the handle being closed; calls of the close function with a negative argument are ignored",
         "ObjectPool statistics are compared with the documented retention rule (a freed block is parked while fewer than the limit are parked)",
     ],
 }
